@@ -37,6 +37,11 @@ theorem error_pos_inside (bs : Bytes) (l c : Nat) (m : Msg) (h : parse bs = .err
   rw [h] at hg
   exact hg
 
+/-- … hence line and column are between 1 and text length + 1 (coarse corollary of the above). -/
+theorem error_pos_bounds (bs : Bytes) (l c : Nat) (m : Msg) (h : parse bs = .err l c m) :
+    1 ≤ l ∧ l ≤ (cutNul bs).length + 1 ∧ 1 ≤ c ∧ c ≤ (cutNul bs).length + 1 :=
+  (error_pos_inside bs l c m h).bounds
+
 /-- non-vacuity: `<a>\n<` fails at line 2, column 2 (end of text) -/
 example : parse [60, 97, 62, 10, 60] = .err 2 2 .eof := by rfl
 
